@@ -31,7 +31,7 @@ COMPONENTS = {"real": ["ECAgent.Core.Model.random", "Environment.get_random_agen
                        "ECAgent.Batching.batch_run with the real multiprocessing.Pool (cross-environment arm)"],
               "stub": ["the stochastic model and its systems are harness workloads (props/chaos.py); global random / "
                        "numpy.random are perturbed, not replaced"]}
-PROBES = ["search_driver", "search_driver_variance_mode", "perturb_inside_timestep", "perturb_between_timesteps", "other_model_same_seed_interleaved",
+PROBES = ["generator_seeded_after_construction", "search_driver", "search_driver_variance_mode", "perturb_inside_timestep", "perturb_between_timesteps", "other_model_same_seed_interleaved",
           "filtered_pick_2plus_candidates", "reseed", "consume", "np_seed", "np_rand", "new_model", "step_other",
           "string_seed", "spatial_world", "environment_handed_to_another_model", "crash_other"]
 TECHNIQUE = "deterministic simulation: seeded perturbation schedule over every ambient randomness source (global RNGs, other models, hash seed, worker process) with a single-digest oracle"
@@ -89,6 +89,7 @@ def generate(rng, tier):
         handover = {"builder_seed": gen_seed(rng), "other_builder_seed": gen_seed(rng), "pre_queries": rng.randint(0, 6),
                     "world": rng.choice(["plain", "grid", "space"]), "agents": rng.randint(2, 9), "queries": rng.randint(2, 8)}
     sc = {"seed": seed, "cfg": cfg, "alt_cfg": alt, "others": others, "perturb": perturb, "pre": pre, "handover": handover}
+    sc["seeding"] = rng.choice(["ctor"] * 5 + ["late_seed", "replace"])
     if rng.random() < 0.2:
         # the same (seed, cfg) built and stepped by the package's own parameter search, scored on the trajectory
         sc["search"] = {"mode": rng.randrange(8), "reps": rng.randint(2, 3), "second_seed": rng.random() < 0.5}
@@ -203,7 +204,10 @@ def execute(sc, ctx):
 
     for op in sc["pre"]:
         ambient(op)
-    target = chaos.ChaosModel(seed, key)
+    target_cls = {"late_seed": chaos.LateSeedChaosModel, "replace": chaos.OwnGeneratorChaosModel}.get(sc.get("seeding"), chaos.ChaosModel)
+    if target_cls is not chaos.ChaosModel:
+        ctx.probe("generator_seeded_after_construction")
+    target = target_cls(seed, key)
     for o in sc["others"]:
         k = key if o["same_cfg"] else altkey
         others.append({"m": chaos.ChaosModel(real_seed(o["seed"]), k), "seed": real_seed(o["seed"]), "key": k})
